@@ -18,7 +18,7 @@ class Divergence(Exception):
 
 
 class Execution:
-    def __init__(self, bodies, schedule, first=0, granularity="call", record_tail=True, timeout=60.0):
+    def __init__(self, bodies, schedule, first=0, granularity="call", record_tail=True, timeout=60.0, marks=(MARK,)):
         self.bodies = bodies
         self.n = len(bodies)
         self.schedule = [tuple(x) for x in schedule]
@@ -26,6 +26,7 @@ class Execution:
         self.gran = granularity
         self.record_tail = record_tail
         self.timeout = timeout
+        self.marks = tuple(marks)     # path fragments of the code whose frames are scheduling points (default: the library only)
         self.sems = [threading.Semaphore(0) for _ in range(self.n)]
         self.steps = [0] * self.n
         self.done = [False] * self.n
@@ -73,6 +74,7 @@ class Execution:
         self.sems[tid].acquire()
         gran = self.gran
         point = self.point
+        marks = self.marks
 
         def local(frame, event, arg):
             if event == "line":
@@ -85,7 +87,7 @@ class Execution:
             return local_op
 
         def tracer(frame, event, arg):
-            if event == "call" and MARK in frame.f_code.co_filename:
+            if event == "call" and any(m in frame.f_code.co_filename for m in marks):
                 if gran == "call":
                     point(tid)
                     return None
